@@ -5,6 +5,7 @@ from ..contracts import flux as CF, process as CP
 from ..symex import explore_thunk
 
 ID = "C08"
+FRAME_SENSITIVE = True        # the statement relates several calls / call histories: a certain write to state that outlives a call is a violation even where the engine cannot follow its effect
 MIN_OBLIGATIONS = 150
 
 
@@ -153,6 +154,8 @@ def obligations(cx):
     c12.units_obligations(cx)
     cx.assume_note("step 0 of an ideal process = standalone call: step-fluxes obligation at k=0 + default-permeances lemma (here) + basis lemma (C07)")
     cx.assume_note("calculate_partial_fluxes by contract at its call sites: equal argument leaves name the same result (pure function, C20)")
+    cx.no_hidden_state(function='Pervaporation.calculate_partial_fluxes')
+
 
 
 def _same_series(st, cfg):
